@@ -592,6 +592,10 @@ func (r *chunkReader) ReadAt(data []byte, off int64) (readBytes int, err error) 
 			}
 		}
 
+		if offset > int64(len(buffer.Bytes())) {
+			// offset past the end of a trailing partial leaf
+			offset = int64(len(buffer.Bytes()))
+		}
 		readBytes += copy(data[readBytes:], buffer.Bytes()[offset:])
 		buffer.Unpin()
 
